@@ -25,6 +25,7 @@ from hypothesis import strategies as st
 
 from .. import strategies as S
 from ..engine import Clause, require
+from ..common import with_history  # noqa: E402
 
 # the sampler reports every broken sequence constraint through logging.warning (root logger)
 logging.disable(logging.WARNING)
@@ -160,6 +161,7 @@ def max_hye_arg(case):
 # running the sampler
 
 
+@with_history
 def build_initial(case):
     from hypergraphx import Hypergraph
     ini = case["initial"]
